@@ -38,6 +38,17 @@ Theorem C12_meaning : forall tm prog opts argv,
 Proof. exact meaning. Qed.
 Print Assumptions C12_meaning.
 
+(* help(): "randomization seed ... must be greater than 0" -- seed 0 is refused in both spellings, and no accepted vector at all
+   gives a configuration that shuffles with seed 0 *)
+Theorem C12_seed_zero_rejected : forall tm c rest,
+  parse_args tm c ([45; 115; 48] :: rest) = Reject false /\ parse_args tm c ([45; 115] :: [48] :: rest) = Reject false.
+Proof. exact seed_zero_rejected. Qed.
+Print Assumptions C12_seed_zero_rejected.
+
+Theorem C12_seed_positive : forall tm argv c, parse tm argv = Accept c -> seed_ok c = true.
+Proof. exact parse_seed. Qed.
+Print Assumptions C12_seed_positive.
+
 (* a rejected vector: help (after -h) or usage is printed, nothing else, and runAllTests is not called *)
 Theorem C12_reject_no_run : forall tm argv h, parse tm argv = Reject h ->
   run tm argv = ORejected h 0 (if h then PHelp else PUsage) /\ ~ In ERunAllTests (run_all_tests_main (parse tm argv)).
